@@ -28,6 +28,7 @@ PROP = dict(
                dict(fn=MS + "replace_last", rt_skip=True),
                dict(fn=MS + "insert_one", contract_key=MS + "insert_one:new", rt_skip=True),
                dict(fn="aw_datastore.storages.abstract.AbstractStorage.insert_many", contract_key="aw_datastore.storages.abstract.AbstractStorage.insert_many" + ":memory", runs_as=MS + "insert_many", rt_skip=True),
+               dict(fn="aw_datastore.storages.abstract.AbstractStorage.insert_many", contract_key="aw_datastore.storages.abstract.AbstractStorage.insert_many" + ":memory-upsert", runs_as=MS + "insert_many", rt_skip=True),
                dict(fn=MS + "create_bucket", rt_skip=True),
                dict(fn=MS + "delete_bucket", rt_skip=True)],
     timeout_s=20,
